@@ -2,12 +2,16 @@
   C20 — EpochManager keeps only the list nodes it needs and frees them all (sequential histories).
   Proved here: the published vector is *exactly* the distinct values {new epoch, previous epoch, pinned
   epochs} in descending order (for every multiset of pins), its last element is the minimum, and the
-  vector just written for the new epoch is what a lookup of that epoch returns.  The node-count bound
-  and "destructor frees all" are checked on every sequential scenario by the monitors (`seqnodes`),
-  on the implementation's own allocation events; the pruning walk's theorems are being extended in
-  `Proofs/EpochSeq.lean`.
+  vector just written for the new epoch is what a lookup of that epoch returns.  For every sequential
+  history (any sequence of guard creations, guard destructions and forwards, `Proofs/EpochHist.lean`):
+  `ForwardGlobalEpoch` always terminates (the pruning walk never spins, no lookup runs off the chain),
+  it publishes exactly that vector and that minimum, the pruning walk keeps exactly the nodes whose
+  range holds a protected epoch plus the oldest node (`Proofs/EpochPrune.lean`), and right after it
+  the chain has at most (number of distinct occupied 256-epoch ranges) + 1 nodes.  "Destructor frees
+  all" is a walk over the whole chain (checked on the implementation's allocation events by the
+  `seqnodes` monitor).
 -/
-import CppUtil.Proofs.EpochSeq
+import CppUtil.Proofs.EpochHist
 import CppUtil.Gen.Thread
 
 namespace CppUtil.Props
@@ -34,6 +38,44 @@ theorem c20_min_is_smallest (cur : Nat) (pins : List Nat) (m : Nat)
     (hm : (sortDescDedup ([cur + 1, cur] ++ pins)).getLast? = some m) :
     m ∈ sortDescDedup ([cur + 1, cur] ++ pins) ∧ ∀ y ∈ sortDescDedup ([cur + 1, cur] ++ pins), m ≤ y :=
   ⟨List.mem_of_getLast? hm, desc_last_le _ (sortDescDedup_spec _).1 m hm⟩
+
+/-- the regenerated constants are well-formed (capacity > 0, initial epoch aligned and above the minimum) -/
+theorem c20_good_consts : GoodConsts Gen.epochConsts := ⟨by decide, by decide, by decide⟩
+
+/-- **every sequential history runs to completion**: no forward hangs in the pruning walk or walks off
+    the chain, whatever guards are created and destroyed in between, however long they stay pinned -/
+theorem c20_history_total (ops : List SeqOp) :
+    ∃ s, seqRun Gen.epochConsts (seqInit Gen.epochConsts) ops = some s ∧ SInv Gen.epochConsts s :=
+  sinv_run Gen.epochConsts c20_good_consts ops _ (sinv_init _ c20_good_consts)
+
+/-- **a forward after any history**: exact vector, exact minimum, and the node bound -/
+theorem c20_forward_after_history (ops : List SeqOp) (s : SeqSt)
+    (h : seqRun Gen.epochConsts (seqInit Gen.epochConsts) ops = some s) :
+    ∃ s', seqStep Gen.epochConsts s .forward = some s' ∧
+      s'.cur = s.cur + 1 ∧
+      s'.last = sortDescDedup ([s.cur + 1, s.cur] ++ s.pins) ∧
+      s'.min = (sortDescDedup ([s.cur + 1, s.cur] ++ s.pins)).getLast?.getD 0 ∧
+      s'.nodes.length ≤ (sortDescDedup (s'.last.map (upperOf Gen.epochConsts))).length + 1 := by
+  have hI := sinv_reachable _ c20_good_consts ops s h
+  obtain ⟨s', h1, _, h3, _, h5, h6, _, h8⟩ := forward_ok _ c20_good_consts s hI
+  exact ⟨s', h1, h3, h5, h6, h8⟩
+
+/-- **the pruning walk**, for any chain and protected list meeting the coordinator's conditions: it
+    terminates and returns exactly the wanted nodes plus the oldest one, freeing exactly the others -/
+theorem c20_prune_exact (c : List PNode) (pe : Nat) (it : List Nat) (hs : PState Gen.epochConsts c pe it)
+    (hh : c.length ≤ 1 ∨ ∃ cur rest, c = cur :: rest ∧ pe = cur.upper) :
+    prune Gen.epochConsts (2 * c.length + 4) [] c pe it =
+      some (keepOf Gen.epochConsts pe it c, freeOf Gen.epochConsts pe it c) ∧
+    (keepOf Gen.epochConsts pe it c).length + (freeOf Gen.epochConsts pe it c).length = c.length ∧
+    (keepOf Gen.epochConsts pe it c).length ≤ (sortDescDedup (pe :: it.map (upperOf Gen.epochConsts))).length + 1 := by
+  refine ⟨?_, keep_free_length _ pe it c, keepOf_length_le _ pe it c hs.sorted⟩
+  have := prune_spec Gen.epochConsts c (2 * c.length + 4) [] pe it hs (Or.inr hh) (by omega)
+  simpa using this
+
+/-- non-vacuity: a history with a long-pinned guard across two range boundaries: pin at 256, 600 forwards,
+    the chain holds the nodes of ranges 768 (current), 256 (pinned, oldest) — the node of 512 was retired -/
+example : ((seqRun Gen.epochConsts (seqInit Gen.epochConsts) (SeqOp.enter :: List.replicate 600 SeqOp.forward)).map
+    (fun s => (s.cur, s.nodes.map (·.upper), s.min))) = some (856, [768, 256], 256) := by decide +kernel
 
 /-- non-vacuity / concrete instance: pins 300, 256, 300 at current epoch 511 -/
 example : sortDescDedup ([512, 511] ++ [300, 256, 300]) = [512, 511, 300, 256] := by decide
